@@ -121,6 +121,9 @@ Definition rr_offset (r : rrect) (n : Z) : rrect :=
   let c := rr_corners r in
   RR (offset (rr_rect r) n) (CR (f (r_tl c)) (f (r_tr c)) (f (r_br c)) (f (r_bl c))).
 
+(* mod.rs:311-316  Transform::translate (translate_mut: mod.rs:333-337 moves the same field in place) *)
+Definition rr_translate (r : rrect) (d : point) : rrect := RR (translate_rect (rr_rect r) d) (rr_corners r).
+
 (* mod.rs:342-361  RoundedRectangleContains; ranges are (start, end) pairs *)
 Record rrc := RRC {
   c_rows : Z * Z; c_columns : Z * Z;
